@@ -178,8 +178,12 @@ class Session:
                 return self.scan_exhaust(step, getattr(typelib, step["kind"]), self.T(step))
             if op in ("marshal", "roundtrip") and step.get("t") is not None and not _one_shot(step["v"]):
                 v = self.V(step["v"])
-                if op == "marshal":
-                    self.prebuilt[step.get("id")] = v  # the step itself then converts this very object
+                if op == "marshal" and not _has_tag(step["v"], "$pend"):
+                    # the step itself then converts this very object.  (Not for pendulum instances: their
+                    # lazily computed attributes - Duration.hours sets itself to 0 before computing - are
+                    # left half-initialised by a RecursionError inside pendulum, which is the third-party
+                    # value's own state, not the library's.)
+                    self.prebuilt[step.get("id")] = v
                 return self.scan_exhaust(step, typelib.marshal, v, t=self.T(step))
             if op == "unmarshal" and not _one_shot(step["x"]):
                 return self.scan_exhaust(step, typelib.unmarshal, self.T(step), self.V(step["x"]))
@@ -589,6 +593,19 @@ class Session:
             "clock_seam": self.clock.available,
             "clock_reads": self.clock.reads(),
         }
+
+
+def _has_tag(v, tag: str) -> bool:
+    stack = [v]
+    while stack:
+        x = stack.pop()
+        if isinstance(x, dict):
+            if tag in x:
+                return True
+            stack.extend(x.values())
+        elif isinstance(x, list):
+            stack.extend(x)
+    return False
 
 
 def _one_shot(v) -> bool:
